@@ -157,7 +157,7 @@ struct HLive : Harness {
     Prng wr(seed, PURPOSE_WORKLOAD), mr(seed, PURPOSE_MACHINE), sr(seed, PURPOSE_SCHEDULE);
     gen_machine(p, mr, sr, false, 3);
     p.seti("sched.strategy", 0); p.seti("sched.detect", 0);
-    p.seti("machine.nproc", wr.chance(0.75) ? 1 : (int)wr.range(2, 3));
+    p.seti("machine.nproc", wr.chance(0.85) ? 1 : (int)wr.range(2, 3));
     static const int weights[T_COUNT] = {34, 26, 14, 6, 14, 6};
     int rt = 0; { int x = (int)wr.below(100), acc = 0; for (int i = 0; i < T_COUNT; i++) { acc += weights[i]; if (x < acc) { rt = i; break; } } }
     int n = (int)wr.range(3, 12), pp = (int)wr.range(1, 6), deg = 0, ncomp = 1, rank = 1, ny = 1;
@@ -198,7 +198,8 @@ struct HLive : Harness {
     uint64_t calib = sim_steps_now() - s0;
     sim_set_step_limit(0);
     if (rcr != SIM_OK) { sim_end_run(nullptr); o.counters["skipped.calibration_failed"]++; o.hash = 1; return o; }
-    uint64_t B = 3000ULL * calib + 5000000ULL;
+    uint64_t B = 20000ULL * calib + 1000000ULL;
+    if (B > 2000000000ULL) B = 2000000000ULL;
     if (p.has("budget_override")) B = p.getu("budget_override");
     // the degenerate call
     CallArg deg{&c, false};
@@ -210,7 +211,7 @@ struct HLive : Harness {
     o.nontrivial = true;
     h.u64(rc); h.u64(rc == SIM_OK ? used : 0);
     uint64_t permille = B ? used * 1000 / B : 0;
-    if (rc == SIM_OK && permille > o.counters["headroom.max_permille_of_budget_used"]) o.counters["headroom.max_permille_of_budget_used"] = permille;
+    if (rc == SIM_OK) { o.counters[std::string("max.permille_of_budget_used.") + rt_name[c.rt]] = permille; o.counters[std::string("max.steps_ratio_to_regular.") + rt_name[c.rt]] = calib ? used / calib : 0; }
     if (rc == SIM_CEILING) {
       char m[300]; snprintf(m, sizeof m, "%s on %s input (%dx%d, %d components, scaling %d) does not return: step budget %llu exhausted (a regular call of the same shape takes %llu steps)", rt_name[c.rt], deg_name[c.deg], c.n, c.p, c.ncomp, c.scaling, (unsigned long long)B, (unsigned long long)calib);
       o.fail(std::string("non-termination:") + rt_name[c.rt], m);
@@ -281,6 +282,7 @@ struct HLive : Harness {
     o.sched_sig = p.getu("data.seed");
     return o;
   }
+  int minimise_budget(const std::string &cls) override { return cls.compare(0, 15, "non-termination") == 0 ? 16 : 100; }  // every rerun of a hang costs a full budget
   static size_t a_size(const std::vector<double> &v) { return v.size(); }
 
   std::vector<Plan> shrink(const Plan &p) override {
